@@ -48,7 +48,7 @@ def run_all(run, oracle_mod, depth, max_dev, worlds=None):
     jobs = []
     import os
     if os.environ.get('VERIF_WORLDS'):
-        worlds = os.environ['VERIF_WORLDS'].split(',')  # debugging aid only
+        worlds = os.environ['VERIF_WORLDS'].split(';')  # debugging aid only
     for w in worlds or world_names():
         world = get_world(w)
         for root in world.roots:
